@@ -1,4 +1,5 @@
 import PdfModel.Lemmas.EncTiff
+import PdfModel.Lemmas.LzwDecode
 
 set_option linter.unusedSimpArgs false
 set_option linter.unusedVariables false
@@ -168,9 +169,12 @@ theorem decode_returns (X : Ext) (d : Bytes) (f : Filter) : decode X d f ≠ .pa
   | runLength => exact runLengthDecode_returns d
   | lzw p =>
     simp only [decode, lzwDecode]
-    split
-    · exact unpredict_returns _ p
-    · simp
+    have hl := Lzw.decode_returns (decide (p.earlyChange ≠ 0)) d
+    cases h : Lzw.decode (decide (p.earlyChange ≠ 0)) d with
+    | ok x => exact unpredict_returns _ p
+    | err => simp
+    | panic => exact absurd h hl.1
+    | oof => exact absurd h hl.2
   | flate p =>
     simp only [decode, flateDecode]
     split
